@@ -14,15 +14,37 @@ Definition err_code (e : err) : N :=
   | EMissing _ => 0 | ECircular => 1 | EKey => 2 | EType => 3 | EValue => 4 | EFuel => 5 | EName => 6
   end%N.
 
+(** [OMut]: outcome of a (single or batch) mutator, the registry, the container keys and the raw
+    values of parameters and variables ([None] = an initial assignment);
+    [OTable]: get_stoichiometries as a dense table: row labels, column labels, every (row, column, value) *)
 Inductive obs :=
 | OMut (rejected : option N) (ids : list (name * N)) (content : list (list name))
+       (vals : list (list (name * option Z)))
 | OIds (ids : list (name * N))
 | OPairs (l : list (name * Z))
 | ONames (l : list name)
+| OTable (rows cols : list name) (entries : list (name * name * Z))
 | OErr (code : N).
 
 Definition content_keys (m : model) : list (list name) :=
   [keys (m_par m); keys (m_var m); keys (m_der m); keys (m_rxn m); keys (m_ro m); keys (m_sur m); keys (m_dat m)].
+
+Definition raw_vals (l : list (name * valia)) : list (name * option Z) :=
+  map (fun kv => (fst kv, match snd kv with Plain v => Some v | IA _ _ => None end)) l.
+Definition content_vals (m : model) : list (list (name * option Z)) := [raw_vals (m_par m); raw_vals (m_var m)].
+Definition optZ_eqb (a b : option Z) : bool :=
+  match a, b with Some x, Some y => Z.eqb x y | None, None => true | _, _ => false end.
+Definition vals_eqb (a b : list (list (name * option Z))) : bool :=
+  list_eqb (list_eqb (fun x y => N.eqb (fst x) (fst y) && optZ_eqb (snd x) (snd y))) a b.
+
+Definition same_set (a b : list name) : bool := subsetN a b && subsetN b a.
+Definition table_ok (tab : list (name * list (name * Z))) (rows cols : list name)
+           (entries : list (name * name * Z)) : bool :=
+  same_set (keys tab) rows
+  && same_set (flat_map (fun r => keys (snd r)) tab) cols
+  && Nat.eqb (length entries) (length rows * length cols)
+  && Nat.eqb (length (keys tab)) (length rows)
+  && forallb (fun e => Z.eqb (stoich_at tab (fst (fst e)) (snd (fst e))) (snd e)) entries.
 
 Definition ids_eqb (a : list (name * kind)) (b : list (name * N)) : bool :=
   list_eqb (fun x y => N.eqb (fst x) (fst y) && N.eqb (snd x) (snd y))
@@ -30,12 +52,15 @@ Definition ids_eqb (a : list (name * kind)) (b : list (name * N)) : bool :=
 
 Definition obs_ok (s : st) (o : outcome) (x : obs) : bool :=
   match o, x with
-  | Accepted, OMut None ids cont => ids_eqb (s_ids s) ids && list_eqb (list_eqb N.eqb) (content_keys (s_m s)) cont
-  | Rejected e, OMut (Some c) ids cont =>
+  | Accepted, OMut None ids cont vals =>
+    ids_eqb (s_ids s) ids && list_eqb (list_eqb N.eqb) (content_keys (s_m s)) cont && vals_eqb (content_vals (s_m s)) vals
+  | Rejected e, OMut (Some c) ids cont vals =>
     N.eqb (err_code e) c && ids_eqb (s_ids s) ids && list_eqb (list_eqb N.eqb) (content_keys (s_m s)) cont
+    && vals_eqb (content_vals (s_m s)) vals
   | Answer (AIds i), OIds ids => ids_eqb i ids
   | Answer (APairs l), OPairs l' => pairsZ_eqb l l'
   | Answer (ANames l), ONames l' => list_eqb N.eqb l l'
+  | Answer (ATable t), OTable rows cols entries => table_ok t rows cols entries
   | Answer (AErr e), OErr c => N.eqb (err_code e) c
   | _, _ => false
   end.
